@@ -356,7 +356,8 @@ func (h *Handle) Get(ctx context.Context, key []byte) ([]byte, error) {
 }
 
 func (h *Handle) Iter(ctx context.Context, start, end []byte, ts uint64, limit uint64) (storage.Iter, error) {
-	h.yield("kv.iter", start)
+	// both bounds identify the caller: two scan workers may share a start key after border adjustment
+	h.yield("kv.iter", append(append(append([]byte(nil), start...), '|'), end...))
 	if h.decide("iter", "", "") == "err" {
 		return nil, ErrInjected
 	}
